@@ -203,6 +203,18 @@ impl SemanticState {
                 item_definition.path
             )
         })?;
+        // An item can only be defined once. Registering the exact same item again is fine:
+        // generated vftable types are re-registered on every attempt to resolve their owner.
+        if self
+            .type_registry
+            .get(&item_definition.path)
+            .is_some_and(|existing| existing != &item_definition)
+        {
+            anyhow::bail!(
+                "the item `{}` is defined more than once",
+                item_definition.path
+            );
+        }
         self.modules
             .get_mut(parent_path)
             .with_context(|| format!("failed to get module for path `{parent_path}`"))?
